@@ -16,6 +16,7 @@ carried by the correspondence and the byte-level oracle of props/c01.py, see `le
 -/
 import Pyc.Proofs.NumText
 import Pyc.Proofs.Float32Grid
+import Pyc.Proofs.Dec7Grid
 import Pyc.Proofs.Sync
 import Pyc.Model.NumText
 import Pyc.Model.SaveMachine
@@ -84,6 +85,48 @@ theorem pow10_table_ok :
     (Pyc.Generated.Pow10Table.table.filter (fun kb => kb.1 ≤ 37)).all (fun kb =>
       isBin24 kb.2 && isNearestBin24 (pow10 (-(kb.1 : Int))) kb.2 && isNearestDec7 kb.2 (pow10 (-(kb.1 : Int)))) = true := by
   decide +kernel
+
+open Pyc.NumText in
+/-- why the property speaks of the first RELOADED generation: at a power of ten the very first file need not be a fixed
+    point of the text. x = 1.0000000623e28 is a float32 value and is written `1e+28`; that text loads as
+    v = 9.999999442e27 (the float32 nearest to 10^28), which is written `9.999999e+27`, a different text — and from
+    there on text and value repeat (`9.999999e+27` loads as v again). Same on the implementation (corpus of props/c01.py). -/
+theorem first_file_need_not_be_fixed :
+    let x : Rat := 10000000622711310485731409920
+    let v : Rat := 9999999442119689768320106496
+    isBin24 x = true ∧ isNearestDec7 x (pow10 28) = true ∧ isNearestBin24 (pow10 28) v = true ∧ v ≠ x ∧
+      isNearestDec7 v (9999999 * pow10 21) = true ∧ 9999999 * pow10 21 ≠ pow10 28 ∧
+      isNearestBin24 (9999999 * pow10 21) v = true := by
+  decide +kernel
+
+/-- **the text side, unconditionally.** x any value the model holds (B x, e.g. a float32), a the seven-digit decimal
+    written for it, b the value read back from a (a nearest B value). Unless a is zero (`zero_text_fixed`) or ± a power of ten
+    (`pow10_table_ok` for the negative ones; `first_file_need_not_be_fixed` shows it can fail there) the text written for b is a again: the seven-digit
+    decimals around every other a are equally spaced (`localGrid_dec7`), whatever the tie rule E. -/
+theorem dec7_text_fixed_point {E B : ℚ → Prop} {x a b : ℚ} (hxB : B x) (hx : IsRound IsDec7 E x a) (h0 : a ≠ 0)
+    (hp : ∀ k : ℤ, |a| ≠ (10 : ℚ) ^ k) (hb : ∀ y, B y → |a - b| ≤ |a - y|) : IsRound IsDec7 E b a := by
+  obtain ⟨m, e, hi, rfl⟩ := dinterior_of_dec7 a hx.1 h0 hp
+  exact Pyc.NumTextP.text_fixed_point hxB hx (localGrid_dec7 hi) hb
+
+/-- zero is written as zero and read as zero -/
+theorem zero_text_fixed {D E : ℚ → Prop} (h : D 0) : IsRound D E 0 0 := by
+  refine ⟨h, fun d _ => by simp, fun d _ hne htie => ?_⟩
+  exfalso
+  simp at htie
+  exact hne htie
+
+/-- the whole number chain for float32 data: x a float32, a its text, b the float32 read from a, a' the text of b,
+    b' the float32 read from a'. Then a' = a in the sense of `IsRound` (a is the text of b) and b is the value of a
+    again — text and value are both fixed from the first reload on, for every a that is not 0 or ± a power of ten. -/
+theorem float32_text_and_value_fixed {E E' : ℚ → Prop} {x a b : ℚ} (hx32 : IsF32 x) (hx : IsRound IsDec7 E x a)
+    (h0 : a ≠ 0) (hp : ∀ k : ℤ, |a| ≠ (10 : ℚ) ^ k) (hb : IsRound IsF32 E' a b) :
+    IsRound IsDec7 E b a ∧ IsRound IsF32 E' a b :=
+  ⟨dec7_text_fixed_point hx32 hx h0 hp (fun y hy => by
+      have := hb.2.1 y hy
+      exact this), hb⟩
+
+/-- non-vacuity: 0.3333333 = 3333333·10^-7 is an interior seven-digit decimal -/
+example : DInterior 3333333 (-7) := ⟨by norm_num, by norm_num⟩
 
 /-- elements: the saved tree is the rendering of the current model only (C02) -/
 theorem save_depends_on_model_only {α : Type} [DecidableEq α] (wanted old old' : List α) (b b' : Option α) :
